@@ -3,6 +3,7 @@
 // DisableQueueNotify only defers), C11 (never reported empty while an event is pending or in dispatch).
 #include <eventpp/eventqueue.h>
 #include <eventpp/hetereventqueue.h>
+#include <eventpp/utilities/orderedqueuelist.h>
 
 #include "common/harness.h"
 #include "common/ledger.h"
@@ -78,16 +79,29 @@ struct ICQ
 	virtual void wait() = 0;
 	virtual bool waitFor(bool zero) = 0;
 	virtual void dqnBegin(int tid) = 0;
-	virtual void dqnEnd(int tid) = 0;
+	virtual void dqnEnd(int tid, bool byException) = 0; // byException: the scope is left by a throw, the object dies during unwinding
 };
 
 template <typename Threading_>
 struct PolQ { using Threading = Threading_; };
 
+// OrderedQueueList whose comparator ranks every event of this harness the same (keys 0 and 1): the order a stable sort has
+// to keep is then the enqueue order, which is what the per-producer FIFO oracle demands
+struct CmpSameRank
+{
+	template <typename T> bool operator() (const T & a, const T & b) const { return a.event / 2 < b.event / 2; }
+};
 template <typename Threading_>
+struct PolQOrdered
+{
+	using Threading = Threading_;
+	template <typename Item> using QueueList = eventpp::OrderedQueueList<Item, CmpSameRank>;
+};
+
+template <typename Threading_, typename Policies_ = PolQ<Threading_> >
 struct HomoQ : ICQ
 {
-	using Queue = eventpp::EventQueue<int, void (int, const Tracked &), PolQ<Threading_> >;
+	using Queue = eventpp::EventQueue<int, void (int, const Tracked &), Policies_>;
 	using DQN = typename Queue::DisableQueueNotify;
 	Queue q;
 	std::vector<std::unique_ptr<DQN> > dqn[kMaxThreads + 1];
@@ -118,7 +132,12 @@ struct HomoQ : ICQ
 	void wait() override { q.wait(); }
 	bool waitFor(bool zero) override { return q.waitFor(std::chrono::milliseconds(zero ? 0 : 10)); }
 	void dqnBegin(int tid) override { dqn[tid].emplace_back(new DQN(&q)); }
-	void dqnEnd(int tid) override { if(! dqn[tid].empty()) dqn[tid].pop_back(); }
+	void dqnEnd(int tid, bool byException) override {
+		if(dqn[tid].empty()) return;
+		if(! byException) { dqn[tid].pop_back(); return; }
+		struct Pop { std::vector<std::unique_ptr<DQN> > & v; ~Pop() { v.pop_back(); } };
+		try { Pop pop{ dqn[tid] }; throw 0; } catch(int) {}
+	}
 };
 
 template <typename Threading_>
@@ -148,7 +167,7 @@ struct HeterQ : ICQ
 	void wait() override { q.wait(); }
 	bool waitFor(bool zero) override { return q.waitFor(std::chrono::milliseconds(zero ? 0 : 10)); }
 	void dqnBegin(int) override {}
-	void dqnEnd(int) override {}
+	void dqnEnd(int, bool) override {}
 };
 
 // ---------------------------------------------------------------- history
@@ -195,7 +214,7 @@ struct Run
 	bool anyDecline = false;
 	bool knownFifoPutBack = false;
 	bool emptyDuringPredicateCall = false;
-	bool heter = false;
+	bool heter = false, orderedList = false;
 	int dqnAlive = 0;
 	std::ostringstream log;
 	long sentinels = 0;
@@ -316,7 +335,7 @@ struct Run
 				}
 				break;
 			case C_DQN_END:
-				closeDqn(t);
+				closeDqn(t, op.a == 2);
 				break;
 			case C_PROCESS: case C_PROCESSONE: case C_PROCESSIF: case C_PROCESSUNTIL: {
 				if(op.kind == C_PROCESSUNTIL && ! q->full()) break;
@@ -402,15 +421,15 @@ struct Run
 		}
 		while(! openDqn[t].empty()) closeDqn(t);
 	}
-	void closeDqn(int t) {
+	void closeDqn(int t, bool byException = false) {
 		if(openDqn[t].empty()) return;
 		size_t i = openDqn[t].back();
 		openDqn[t].pop_back();
 		dqns[i].dtorBegin = now();
-		q->dqnEnd(t);
+		q->dqnEnd(t, byException);
 		dqns[i].dtorEnd = now();
 		--dqnAlive;
-		log << " t" << t << ":dqn-";
+		log << " t" << t << (byException ? ":dqn-(throw)" : ":dqn-");
 	}
 
 	// ---- oracles
@@ -599,7 +618,7 @@ struct Run
 	}
 
 	void run() {
-		const int cfg = prog.params.size() > 0 ? ((prog.params[0] % 3) + 3) % 3 : 0;
+		const int cfg = prog.params.size() > 0 ? ((prog.params[0] % 4) + 4) % 4 : 0;
 		const int strategy = prog.params.size() > 1 ? ((prog.params[1] % 3) + 3) % 3 : 0;
 		const bool spurious = prog.params.size() > 2 && (prog.params[2] & 1);
 		// params[3] == 77: scripted schedule (bounded-exhaustive exploration); the schedule bytes are then records of
@@ -622,6 +641,7 @@ struct Run
 		switch(cfg) {
 		case 0: q.reset(new HomoQ<SchedThreading>()); break;
 		case 1: q.reset(new HomoQ<SchedSpinThreading>()); break;
+		case 3: q.reset(new HomoQ<SchedThreading, PolQOrdered<SchedThreading> >()); orderedList = true; break;
 		default: q.reset(new HeterQ<SchedThreading>()); heter = true; sched->noPreemptPrefix = "cs.cbl."; break;
 		}
 		std::vector<const std::vector<Op> *> scripts;
@@ -700,7 +720,7 @@ bool onPredicate(int serial) { return g_run ? g_run->predicate(serial) : true; }
 Grammar makeGrammar(const std::string & prop)
 {
 	Grammar g;
-	g.params = { ArgSpec(0, 2), ArgSpec(0, 2), ArgSpec(0, 1), ArgSpec(0, 1) };
+	g.params = { ArgSpec(0, 3), ArgSpec(0, 2), ArgSpec(0, 1), ArgSpec(0, 1) };
 	g.maxSched = 96;
 	g.maxDepth = 2;
 	g.maxTotalOps = 40;
@@ -718,7 +738,7 @@ Grammar makeGrammar(const std::string & prop)
 		th.kinds = {
 			{ C_ENQ, "enqueue", 12, key, val, ArgSpec(0, 0), -1, 0 },
 			{ C_DQN_BEGIN, "dqnBegin", 6, ArgSpec(0, 0), ArgSpec(0, 0), ArgSpec(0, 0), -1, 0 },
-			{ C_DQN_END, "dqnEnd", 5, ArgSpec(0, 0), ArgSpec(0, 0), ArgSpec(0, 0), -1, 0 },
+			{ C_DQN_END, "dqnEnd", 5, ArgSpec(0, 2), ArgSpec(0, 0), ArgSpec(0, 0), -1, 0 }, // a == 2: the scope is left by an exception
 			{ C_WAIT_DRAIN, "wait+drain", 10, ArgSpec(0, 1), ArgSpec(0, 0), ArgSpec(0, 0), -1, 0 },
 			{ C_WAITFOR_DRAIN, "waitFor+drain", 4, ArgSpec(0, 1), ArgSpec(0, 5), ArgSpec(0, 0), -1, 0 },
 			{ C_PROCESS, "process", 2, ArgSpec(0, 0), ArgSpec(0, 0), ArgSpec(0, 0), -1, 0 },
@@ -751,7 +771,7 @@ Grammar makeGrammar(const std::string & prop)
 		th.kinds = {
 			{ C_ENQ, "enqueue", 14, key, val, ArgSpec(0, 0), -1, 0 },
 			{ C_DQN_BEGIN, "dqnBegin", 1, ArgSpec(0, 0), ArgSpec(0, 0), ArgSpec(0, 0), -1, 0 },
-			{ C_DQN_END, "dqnEnd", 1, ArgSpec(0, 0), ArgSpec(0, 0), ArgSpec(0, 0), -1, 0 },
+			{ C_DQN_END, "dqnEnd", 1, ArgSpec(0, 2), ArgSpec(0, 0), ArgSpec(0, 0), -1, 0 },
 			{ C_PROCESS, "process", 6, ArgSpec(0, 0), ArgSpec(0, 0), ArgSpec(0, 0), -1, 0 },
 			{ C_PROCESSONE, "processOne", 7, ArgSpec(0, 0), ArgSpec(0, 0), ArgSpec(0, 0), -1, 0 },
 			{ C_PROCESSIF, "processIf", 3, ArgSpec(0, 3), ArgSpec(0, 1), ArgSpec(0, 0), -1, 0 },
@@ -761,6 +781,11 @@ Grammar makeGrammar(const std::string & prop)
 			{ C_CLEAR, "clearEvents", 1, ArgSpec(0, 0), ArgSpec(0, 0), ArgSpec(0, 0), -1, 0 },
 			{ C_EMPTYQ, "emptyQueue", 1, ArgSpec(0, 0), ArgSpec(0, 0), ArgSpec(0, 0), -1, 0 },
 		};
+	}
+	if(prop == "C08") {
+		// object lifetimes across threads: every payload copy / move is a scheduling point, more reads of queued arguments
+		g.params[3] = ArgSpec(1, 1);
+		for(KindSpec & k : th.kinds) if(k.kind == C_PEEK || k.kind == C_TAKE || k.kind == C_CLEAR) k.weight += 4;
 	}
 	g.levels.push_back(th);
 	return g;
@@ -795,6 +820,7 @@ Verdict run(const Program & p, const std::string & prop)
 		cls(r.emptyDuringDispatch, "observation_overlaps_dispatching_call");
 		cls(r.sentinels > 0, "waiters_released_by_sentinel");
 		cls(r.heter, "heterogeneous_queue");
+		cls(r.orderedList, "ordered_queue_list");
 		cls(r.knownFifoPutBack, "known_finding_fifo_inversion_after_putback_by_another_thread");
 		cls(r.emptyDuringPredicateCall, "emptyQueue_true_overlapping_a_processIf_or_processUntil_call_not_judged");
 		if(prop == "C06") v.nontrivial = r.overlapPC && r.overlapCC && (r.csPreempt || r.unPreempt);
@@ -840,11 +866,18 @@ std::vector<Program> makeTemplates(const std::string & prop)
 			add(0, { thread({ w }), thread({ mk(C_DQN_BEGIN), enq0, mk(C_DQN_END) }), thread({ enq1 }) });
 			add(0, { thread({ w }), thread({ mk(C_DQN_BEGIN), enq0, mk(C_DQN_END) }), thread({ mk(C_DQN_BEGIN), enq1, mk(C_DQN_END) }) });
 			add(0, { thread({ w }), thread({ w }), thread({ enq0, enq1 }) });
+			// the scope is left by an exception: the object dies during stack unwinding and must notify all the same
+			add(0, { thread({ w }), thread({ mk(C_DQN_BEGIN), enq0, mk(C_DQN_END, 2) }) });
+			add(0, { thread({ w }), thread({ mk(C_DQN_BEGIN), mk(C_DQN_BEGIN), enq0, mk(C_DQN_END, 2), mk(C_DQN_END) }) });
 			add(0, { thread({ w }), thread({ enq0 }), thread({ mk(C_PROCESS) }) });
 			add(1, { thread({ w }), thread({ mk(C_PROCESSONE) }), thread({ enq0 }) });
 			add(0, { thread({ w }), thread({ enq0 }), thread({ mk(C_PROCESSIF, 1, 0) }) });      // a processIf that declines everything
 			add(0, { thread({ w }), thread({ enq0 }), thread({ mk(C_PROCESSUNTIL, 0, 0) }) });   // a processUntil that stops at once
 			add(1, { thread({ w }), thread({ mk(C_PROCESSIF, 1, 0) }), thread({ enq0 }) });
+			// two waiters, one enqueue and a call that holds the event in its private batch and puts it back (defect E14: the
+			// waiter woken by the enqueue drains nothing, the put-back must wake the other one)
+			add(0, { thread({ w }), thread({ w }), thread({ enq0, mk(C_PROCESSIF, 1, 0) }) });
+			add(0, { thread({ w }), thread({ w }), thread({ enq0, mk(C_PROCESSUNTIL, 0, 0) }) });
 		}
 	}
 	else if(prop == "C11") {
